@@ -24,7 +24,25 @@ def _agg_lit(rng, fun, elems, var="X", consts=("1", "2", "3", "5")):
     return f"{rng.choice(SIGNS)}{c} {rng.choice(OPS)} {inner} {rng.choice(OPS)} {c2}", False
 
 
+def gen_minmax2(rng):
+    """two group keys: the tuple of the consuming #sum / objective must identify BOTH (P+Q, P*Q, P do not)"""
+    fun = rng.choice(["#max", "#min"])
+    lines = [rng.choice(["{ sel(P,Q,V) } :- skill(P,Q,V).", "{ sel(P,Q,V) : skill(P,Q,V) } :- slot(P,Q)."])]
+    lines.append(f"res(P,Q,X) :- slot(P,Q), X = {fun} {{ V : sel(P,Q,V) }}.")
+    key = rng.choice(["P,Q", "P+Q", "P-Q", "P*Q", "(P,Q)", "P", "Q,P", "P+Q,P", "f(P,Q)", "P+1,Q"])
+    u = rng.random()
+    if u < 0.5:
+        lines.append(f"tot(S) :- S = #sum {{ X,{key} : res(P,Q,X) }}.")
+    elif u < 0.8:
+        lines.append(f"#{rng.choice(['minimize', 'maximize'])} {{ X,{key} : res(P,Q,X) }}.")
+    else:
+        lines.append(f":~ res(P,Q,X). [X@1,{key}]")
+    return "\n".join(lines)
+
+
 def gen_minmax(rng):
+    if rng.random() < 0.14:
+        return gen_minmax2(rng)
     fun = rng.choice(["#max", "#min"])
     lines = []
     r = rng.random()
@@ -58,7 +76,7 @@ def gen_minmax(rng):
             lines.append(f"#{rng.choice(['minimize', 'maximize'])} {{ X{rng.choice(['', '@2'])},{rng.choice(['P', 'P', '|P|', 'p(P)'])} : res(P,X) }}." if grouped
                          else "#minimize { X : res(X) }.")
         elif u < 0.4:
-            lines.append("tot(S) :- S = #sum { X,P : res(P,X) }." if grouped else "tot(S) :- S = #sum { X : res(X) }.")
+            lines.append(f"tot(S) :- S = #sum {{ X,{rng.choice(['P', 'P', 'P+1', 'p(P)', '|P|', 'P*P'])} : res(P,X) }}." if grouped else "tot(S) :- S = #sum { X : res(X) }.")
         elif u < 0.5:
             lines.append(f":~ {'res(P,X)' if grouped else 'res(X)'}. [X@1{',P' if grouped else ''}]")
     else:
@@ -94,6 +112,8 @@ def gen_sumchains(rng):
         lines.append(f":~ shift(D,L){extra}. [L@1,D]")
         if rng.random() < 0.4:
             lines.append(":~ over(D,L). [L@1,D]\n{ over(D,L) } :- pshift(D,L).")
+    if rng.random() < 0.12:  # anonymous group argument in the consumer (finding D16 is about its meaning, C04 about its safety)
+        lines[-1] = lines[-1].replace("shift(D,L)", "shift(_,L)").replace(",D", "").replace("ok(D)", "ok(L)")
     return "\n".join(lines)
 
 
@@ -197,12 +217,19 @@ def gen_symmetry(rng):
     for i in range(k):
         for j in range(i + 1, k):
             cmps.append(rng.choice([f"{vs[i]} != {vs[j]}", f"{vs[i]} != {vs[j]}", f"{vs[i]} < {vs[j]}", f"not {vs[i]} = {vs[j]}",
-                                    f"{vs[j]} > {vs[i]}"]))
+                                    f"{vs[j]} > {vs[i]}", f"{vs[i]} != {vs[j]}",
+                                    # negated orders: `not A > B` is the NON-strict `A <= B` (holds for A = B)
+                                    rng.choice([f"not {vs[i]} > {vs[j]}", f"not {vs[i]} >= {vs[j]}", f"not {vs[i]} < {vs[j]}",
+                                                f"not {vs[i]} <= {vs[j]}", f"{vs[i]} <= {vs[j]}"])]))
     if k == 3 and rng.random() < 0.3:
         cmps.pop()
     extra = rng.choice(["", "", f", q({vs[0]},V1), q({vs[1]},V2), V1 != V2", f", r({vs[0]})", ", ok(S)" if shared else ""])
     head = rng.choice(["", "", "f", f"g({'S' if shared else '1'})", f"h({vs[0]})"])
     lines = [f"{head} :- {', '.join(atoms + cmps)}{extra}."]
+    if rng.random() < 0.2:  # the symmetric literals inside an aggregate element: the tuple's variables are used outside of the condition
+        tup = rng.choice([f"{vs[0]}{shared}", (shared[1:] or "1"), ",".join(vs) + shared, f"1{shared}", f"{vs[1]}"])
+        f = rng.choice(["#count", "#count", "#sum"])
+        lines = [f"a(X) :- X = {f} {{ {tup} : {', '.join(atoms + cmps)} }}{', s(S)' if shared and rng.random() < 0.3 else ''}. #show a/1."]
     r = rng.random()
     if r < 0.4:
         lines.append(f"{{ p(X{shared}) }} :- d(X){',s(S)' if shared else ''}{',t(T)' if 'T' in shared else ''}.")
@@ -261,7 +288,7 @@ def gen_projection(rng):
     rng.shuffle(body)
     hv = rng.sample(vs[:n], rng.choice([1, 1, 2]))
     head = rng.choice([f"h({','.join(hv)})", f"h({','.join(hv)})", f"{{ h({','.join(hv)}) }}", ""])
-    lines = [f"{head} :- {', '.join(body)}."]
+    lines = [f"{head} :- {'; '.join(body)}."]   # `;`: a conditional literal ends at the next `;`, not at a `,`
     if rng.random() < 0.4:
         lines.append("{ e0(X,Y) } :- d(X), d(Y).")
     if rng.random() < 0.3:
